@@ -271,10 +271,11 @@ def _fmt(x):
 
 # ------------------------------------------------------------------ histories (spec -> code, long-lived objects)
 
-def _hist_tx(tab, coin):
-    tx = drv.mk_tx(coin, tab["ver"], tab["ins"], tab["outs"], tab["lock"], 0, 0, witness=True)
+def _hist_tx(fields, coin):
+    """a fresh transaction object with the fields the spec prints (ShowT)"""
+    tx = drv.mk_tx(coin, fields["ver"], fields["ins"], fields["outs"], fields["lock"], 0, 0, witness=True)
     Tx = drv.network(coin).tx
-    tx.unspents = [Tx.TxOut(int.from_bytes(bytes(a), "little"), b"\x51" * (j + 1)) for j, a in enumerate(tab["amts"])]
+    tx.unspents = [Tx.TxOut(int.from_bytes(bytes(a), "little"), b"\x51" * (j + 1)) for j, a in enumerate(fields["amts"])]
     return tx
 
 
@@ -284,33 +285,50 @@ def _hist_args(tab, r):
             [bytes(x) for x in tab["sigsets"][r["g"] - 1]], r["ht"])
 
 
-def _run_history(tab, rec):
-    """one printed history on ONE transaction / checker / closure set, then each request on
-    fresh objects.  Returns None or a failure dict (first failing step)."""
+def _run_history(tab, rec, style=0):
+    """one printed history on ONE transaction / checker / closure set: requests are answered by the
+    long-lived objects, edits are applied to the live transaction object; each request is also put
+    to fresh objects built from the fields the spec prints for that moment.  Returns None or a
+    failure dict (first failing step)."""
     coin = rec["coin"]
-    tx = _hist_tx(tab, coin)
+    fields = tab["start"]
+    tx = _hist_tx(fields, coin)
     before = drv.project(tx)
     session = drv.Session(tx)
-    for k, (r, d) in enumerate(zip(rec["reqs"], rec["exp"])):
-        exp = drv.expected(d)
+    for k, st in enumerate(rec["steps"]):
+        if st["k"] == "edit":
+            fields = st["after"]
+            drv.apply_edit(coin, tx, st["e"], fields, style)
+            before = drv.project(tx)
+            if before != drv.project(_hist_tx(fields, coin)):
+                raise MachineryError("edit %r was not applied to the object as the spec states it" % (st["e"],))
+            continue
+        r = st["r"]
+        exp = drv.expected(st["exp"])
         args = _hist_args(tab, r)
         o = session.ask(*args)
         bad = drv.judge(exp, [("long-lived closure", o)])
         modified = drv.project(tx) != before
-        ftx = _hist_tx(tab, coin)
+        ftx = _hist_tx(fields, coin)
         fo = drv.Session(ftx).ask(*args)
         fbad = drv.judge(exp, [("fresh closure", fo)])
         if bad or modified or fbad:
+            mo = None
             if modified:
                 what = "tx-modified"
             elif bad and not fbad:
-                what = "history-dependent"        # right on fresh objects, wrong after the earlier requests
+                # right on fresh objects, wrong after the earlier steps: who remembers - the checker /
+                # closure, or the transaction object itself (then a new checker on it is wrong too)?
+                mo = drv.Session(tx).ask(*args)
+                what = "history-dependent" if drv.judge(exp, [("", mo)]) is None else "tx-object-history-dependent"
             else:
                 what = (fbad or bad)[0]
-            return {"coin": coin, "sv": r["sv"], "what": what, "step": k + 1, "history": rec["reqs"][:k + 1],
-                    "expected": exp, "long_lived": o, "fresh": fo,
-                    "tx": drv.tx_json(ftx), "request": drv.request_json(coin, *args),
-                    "earlier_requests": [drv.request_json(coin, *_hist_args(tab, q)) for q in rec["reqs"][:k]]}
+            return {"coin": coin, "sv": r["sv"], "what": what, "step": k + 1,
+                    "history": [q.get("r") or q["e"] for q in rec["steps"][:k + 1]],
+                    "expected": exp, "long_lived": o, "fresh": fo, "new_checker_on_live_tx": mo,
+                    "tx": drv.tx_json(ftx), "request": drv.request_json(coin, *args), "edit_style": style,
+                    "earlier_steps": [drv.request_json(coin, *_hist_args(tab, q["r"])) if q["k"] == "ask" else q["e"]
+                                      for q in rec["steps"][:k]]}
     return None
 
 
@@ -318,9 +336,12 @@ def _history_chunk(args):
     tab, recs = args
     out = []
     for rec in recs:
-        f = _run_history(tab, rec)
-        if f is not None:
-            out.append(f)
+        # (without edits the two styles are the same run)
+        for style in ((0, 1) if any(st["k"] == "edit" for st in rec["steps"]) else (0,)):
+            f = _run_history(tab, rec, style)
+            if f is not None:
+                out.append(f)
+                break
     return len(recs), out
 
 
@@ -340,7 +361,8 @@ class HistoryReplayer(Replayer):
         self.n += 1
         if len(self.cands) < 40 and self.n % 499 == 1:
             self.cands.append(rec)
-        self.classes.add((rec["coin"], tuple((r["sv"], r["b"], r["g"]) for r in rec["reqs"])))
+        self.classes.add((rec["coin"], tuple((st["r"]["sv"], st["r"]["b"], st["r"]["g"]) if st["k"] == "ask" else st["e"]["f"]
+                                             for st in rec["steps"])))
         self.buf.append(rec)
         if len(self.buf) >= 200:
             self._flush()
@@ -356,16 +378,17 @@ class HistoryReplayer(Replayer):
 def stage_history(ctx):
     """sequences of requests on one closure / one checker / one transaction object"""
     total = 0
-    for cfg in (("MC_SighashHistory_q", "MC_SighashHistory_q3") if ctx.quick else
-                ("MC_SighashHistory_t", "MC_SighashHistory_t3")):
+    for cfg in (("MC_SighashHistory_q", "MC_SighashHistory_q3", "MC_SighashHistory_qe") if ctx.quick else
+                ("MC_SighashHistory_t", "MC_SighashHistory_t3", "MC_SighashHistory_te")):
         rp = HistoryReplayer(ctx)
         ctx.tlc("MC_SighashHistory", cfg, on_record=rp.feed, keep_records=False, timeout=3000)
         fails = rp.finish()
         if rp.n == 0:
             raise MachineryError("%s printed no history" % cfg)
-        nreq = rp.n * len(rp.cands[0]["reqs"])
-        ctx.log("replayed %d histories (%d requests, each also on fresh objects) of %s on pycoin: %d disagree" % (
-            rp.n, nreq, cfg, len(fails)))
+        nreq = rp.n * sum(st["k"] == "ask" for st in rp.cands[0]["steps"])
+        nedit = rp.n * sum(st["k"] == "edit" for st in rp.cands[0]["steps"])
+        ctx.log("replayed %d histories (%d requests, each also on fresh objects%s) of %s on pycoin: %d disagree" % (
+            rp.n, nreq, ", %d edits of the live object, each in two styles" % nedit if nedit else "", cfg, len(fails)))
         ctx.replayed += rp.n
         ctx.case(None, 2 * nreq)
         ctx.action("history." + cfg, rp.n)
@@ -374,18 +397,21 @@ def stage_history(ctx):
         total += rp.n
         for f in fails:
             ctx.fail("C04|history|%s|%s|%s" % (f["coin"], f["sv"], f["what"]),
-                     "%s/%s request %d of a history on one SolutionChecker/closure: %s: spec demands %s, the long-lived closure gave %s, "
+                     "%s/%s step %d of a history on one transaction object/SolutionChecker/closure: %s: spec demands %s, the long-lived closure gave %s, "
                      "a fresh one %s (history: %s)" % (f["coin"], f["sv"], f["step"], f["what"], _fmt(f["expected"]),
                                                       _fmt(f["long_lived"]), _fmt(f["fresh"]), f["history"]), f)
-        if cfg.endswith("_q") or cfg.endswith("_t"):
-            ctx.sample({"history": {"coin": rp.cands[0]["coin"], "reqs": rp.cands[0]["reqs"]}})
-            passing = [c for c in rp.cands if _run_history(rp.tab, c) is None][:1]
+        if not cfg.endswith("3"):
+            ctx.sample({"history": {"coin": rp.cands[0]["coin"],
+                                    "steps": [st.get("r") or st["e"] for st in rp.cands[0]["steps"]]}})
+            passing = [c for c in rp.cands if c["steps"][-1]["exp"][0]["k"] not in ("refuse", "any", "b")
+                       and _run_history(rp.tab, c) is None][:1]
             if passing:
                 rec = copy.deepcopy(passing[0])
-                lit = [c for c in rec["exp"][-1][0]["x"] if c["k"] == "b"][-1]
+                lit = [c for c in rec["steps"][-1]["exp"][0]["x"] if c["k"] == "b"][-1]
                 lit["v"][0] ^= 1
                 f = _run_history(rp.tab, rec)
-                ctx.selftest("history_rejects_corrupted_expectation", f is not None and f["step"] == len(rec["reqs"]))
+                ctx.selftest("history%s_rejects_corrupted_expectation" % ("_with_edit" if cfg.endswith("e") else ""),
+                             f is not None and f["step"] == len(rec["steps"]))
             elif not fails:
                 raise MachineryError("no history available for the binding self-test")
     return total
@@ -577,8 +603,13 @@ def _push(d):
 
 
 def _rand_sig(rnd):
-    n = rnd.choice((9, 9, 60, 71, 72, 72, 73, 73, 75, 76, 80))
-    return b"\x30" + bytes([n - 3]) + rnd.randbytes(n - 3) + bytes([rnd.randrange(256)])
+    """a signature blob: usual sizes, both sides of the push-opcode boundaries 75 | 76 and 255 | 256
+    (long ones as the lax DER parser takes them: long-form lengths, R padded with zero bytes)"""
+    n = rnd.choice((9, 9, 60, 71, 72, 72, 73, 73, 74, 75, 76, 77, 80, 254, 255, 255, 256, 257))
+    if n < 131:
+        return b"\x30" + bytes([n - 3]) + rnd.randbytes(n - 3) + bytes([rnd.randrange(256)])
+    body = b"\x02\x81" + bytes([n - 41]) + bytes(n - 73) + rnd.randbytes(32) + b"\x02\x20" + rnd.randbytes(32)
+    return b"\x30\x81" + bytes([len(body)]) + body + bytes([rnd.randrange(256)])
 
 
 def _rand_script(rnd, sigs, big):
@@ -595,7 +626,10 @@ def _rand_script(rnd, sigs, big):
             if q < 0.6:
                 parts.append(_push(sg))                           # what FindAndDelete looks for
             elif q < 0.8:
-                parts.append(b"\x4c" + bytes([len(sg)]) + sg if len(sg) < 76 else b"\x4d" + len(sg).to_bytes(2, "little") + sg)
+                # the next larger push opcode: a well-formed push of the blob, but not the pattern
+                parts.append(b"\x4c" + bytes([len(sg)]) + sg if len(sg) < 76 else
+                             b"\x4d" + len(sg).to_bytes(2, "little") + sg if len(sg) < 256 else
+                             b"\x4e" + len(sg).to_bytes(4, "little") + sg)
             else:
                 parts.append(_push(b"\x00" + _push(sg)))           # inside push data
         elif r < 0.6:
@@ -651,7 +685,7 @@ def record_traces(seed, count, big_every=25):
             if rnd.random() < 0.25 and nin > nout:
                 i, ht = rnd.randrange(nout, nin), (ht & 0xE0) | 3          # SIGHASH_SINGLE without an output
             sv = rnd.choice(svs)
-            reqs.append((sv, i, script, begin, sigs, ht))
+            reqs.append(("ask", sv, i, script, begin, sigs, ht))
             # HISTORY: the next signature check of the same script evaluation - same closure, same
             # script, same hash type, but other signatures to remove (some occur in the script, some
             # do not) or another code-separator offset
@@ -667,12 +701,18 @@ def record_traces(seed, count, big_every=25):
                     sigs2, begin2 = sigs, (rnd.choice(seps) if seps else 0)
                 else:
                     sigs2, begin2, i = sigs, begin, rnd.randrange(nin)           # the same check for another input
-                reqs.append((sv, i, script, begin2, sigs2, ht if rnd.random() < 0.8 else rnd.choice(_STD_HT)))
+                reqs.append(("ask", sv, i, script, begin2, sigs2, ht if rnd.random() < 0.8 else rnd.choice(_STD_HT)))
                 sigs, begin = sigs2, begin2
+            # HISTORY: the owner edits the transaction object, then the same check (or the same for another
+            # input / hash type) is made again through the same checker and closures
+            if not huge and rnd.random() < 0.4:
+                reqs.append(("edit", rnd.randrange(1 << 30)))
+                q = rnd.random()
+                reqs.append(("ask", sv, i if q < 0.7 else rnd.randrange(nin), script, begin, sigs,
+                             ht if q < 0.85 else rnd.choice(_STD_HT)))
         before = drv.tx_json(tx)
-        pbefore = drv.project(tx)
         evs = drv.run_trace(coin, tx, reqs)
-        traces.append({"coin": coin, "tx": before, "ev": evs, "py_unchanged": drv.project(tx) == pbefore})
+        traces.append({"coin": coin, "tx": before, "ev": evs, "py_unchanged": all(e.get("py_unchanged", True) for e in evs)})
     return traces
 
 
@@ -680,13 +720,23 @@ def validate_traces(ctx, traces):
     """two TLC passes: (1) MC_SighashCases prints the blob of every logged request and the harness
     evaluates its hash nodes (hashlib) into the event's table; (2) Trace_Sighash accepts or rejects.
     Returns (rejected trace indices, per-event info for diagnostics)."""
-    flat = [{"tx": t["tx"], "r": e["r"]} for t in traces for e in t["ev"]]
+    flat = []
+    for t in traces:
+        cur = t["tx"]
+        for e in t["ev"]:
+            if e["k"] == "ask":
+                flat.append({"tx": cur, "r": e["r"]})       # the fields the object has when the request is made
+            cur = e["after"]
     terms = iter(spec_terms(ctx, flat))
     info = []
     data = []
     for t in traces:
         evs = []
         for e in t["ev"]:
+            if e["k"] == "edit":
+                info.append((None, []))
+                evs.append({"k": "edit", "after": e["after"]})
+                continue
             term = next(terms)
             tab = []
             exp = None
@@ -694,7 +744,7 @@ def validate_traces(ctx, traces):
                 exp = drv.ev(term["d"], tab)
             devs = [(dv["name"], drv.ev(dv["d"])) for dv in term["dev"]]
             info.append((exp, devs))
-            evs.append({"r": e["r"], "raised": e["raised"], "res": e["res"], "after": e["after"],
+            evs.append({"k": "ask", "r": e["r"], "raised": e["raised"], "res": e["res"], "after": e["after"],
                         "tab": [{"f": f, "in": list(x), "out": list(d)} for f, x, d in tab]})
         data.append({"tx": t["tx"], "ev": evs})
     fd, path = tempfile.mkstemp(prefix="vf-c04-traces-", suffix=".json")
@@ -712,66 +762,74 @@ def validate_traces(ctx, traces):
 
 def _trace_diagnosis(t, info):
     """why TLC rejected: the first event whose logged outcome is not the spec's.
-    Returns (group, event): group = (coin, sigversion, what)"""
+    Returns (group, event, fields of the transaction at that event): group = (coin, sigversion, what)"""
+    cur = t["tx"]
     for e, (exp, devs) in zip(t["ev"], info):
+        if e["k"] == "edit":
+            cur = e["after"]
+            continue
         r = e["r"]
-        if e["after"] != t["tx"]:
-            return (r["coin"], r["sv"], "tx-modified"), e
+        if e["after"] != cur:
+            return (r["coin"], r["sv"], "tx-modified"), e, cur
         if exp is None:
             continue
         got = bytes(e["res"])
         if e["raised"] or got != exp:
             for name, d in devs:
                 if got == d:
-                    return (r["coin"], r["sv"], "deviation=" + name), e
+                    return (r["coin"], r["sv"], "deviation=" + name), e, cur
             # the same request on fresh objects: right there means the long-lived closure remembered
-            ftx = drv.tx_from_json(r["coin"], t["tx"])
+            ftx = drv.tx_from_json(r["coin"], cur)
             fo = drv.Session(ftx).ask(r["sv"], r["i"] - 1, bytes(r["script"]), r["begin"], [bytes(x) for x in r["sigs"]], r["ht"])
             if fo == ("digest", int.from_bytes(exp, "big")):
-                return (r["coin"], r["sv"], "history-dependent"), e
-            return (r["coin"], r["sv"], "raised" if e["raised"] else "digest"), e
+                return (r["coin"], r["sv"], "history-dependent"), e, cur
+            return (r["coin"], r["sv"], "raised" if e["raised"] else "digest"), e, cur
     for e, (exp, devs) in zip(t["ev"], info):
-        if exp is None and not e["raised"] and e["r"]["sv"] == "base":
-            return (e["r"]["coin"], e["r"]["sv"], "not-refused"), e
-    return (t["coin"], "-", "rejected-for-unknown-reason"), t["ev"][0]
+        if e["k"] == "ask" and exp is None and not e["raised"] and e["r"]["sv"] == "base":
+            return (e["r"]["coin"], e["r"]["sv"], "not-refused"), e, t["tx"]
+    return (t["coin"], "-", "rejected-for-unknown-reason"), t["ev"][0], t["tx"]
 
 
 def stage_traces(ctx):
-    ntr = 150 if ctx.quick else 600
+    ntr = 120 if ctx.quick else 600
     traces = record_traces(ctx.seed * 7919 + 4, ntr)
-    nev = sum(len(t["ev"]) for t in traces)
-    ctx.log("recorded %d traces (%d sighash requests) on random transactions" % (len(traces), nev))
+    nev = sum(e["k"] == "ask" for t in traces for e in t["ev"])
+    ctx.log("recorded %d traces (%d sighash requests, %d edits of the transaction object in between) on random transactions" % (
+        len(traces), nev, sum(e["k"] == "edit" for t in traces for e in t["ev"])))
     pos = 0
     accepted = []
     rejected = []
     universe = {}
     for t in traces:
         for e in t["ev"]:
+            if e["k"] != "ask":
+                continue
             u = universe.setdefault((e["r"]["coin"], e["r"]["sv"]), {k: set() for k in _FEATS})
-            ft = _features(e["r"], len(t["tx"]["outs"]))
+            ft = _features(e["r"], e["nouts"])
             for k in _FEATS:
                 u[k].add(ft[k])
     for chunk in split(traces, max(1, len(traces) // 300)):
         rej, info = validate_traces(ctx, chunk)
         accepted += [t for k, t in enumerate(chunk) if k not in rej]
         ctx.traces += len(chunk) - len(rej)
-        ctx.case(None, sum(len(t["ev"]) for t in chunk))
+        ctx.case(None, sum(e["k"] == "ask" for t in chunk for e in t["ev"]))
         off = [0]
         for t in chunk:
             off.append(off[-1] + len(t["ev"]))
         for k, t in enumerate(chunk):
             ctx.case(("trace", t["coin"], min(len(t["tx"]["ins"]), 13), min(len(t["tx"]["outs"]), 13),
-                      tuple(sorted(set(_ht_class(e["r"]["ht"]) for e in t["ev"])))), 0)
+                      tuple(sorted(set(_ht_class(e["r"]["ht"]) if e["k"] == "ask" else "edit:" + e["what"] for e in t["ev"])))), 0)
             if not t["py_unchanged"]:
                 ctx.fail("C04|trace|%s|tx-object-modified" % t["coin"], "the transaction object changed during a trace", {"tx": t["tx"]})
         for k in rej:
             t = chunk[k]
-            g, e = _trace_diagnosis(t, info[off[k]:off[k + 1]])
-            rejected.append((g, _features(e["r"], len(t["tx"]["outs"])), t, e))
+            g, e, cur = _trace_diagnosis(t, info[off[k]:off[k + 1]])
+            rejected.append((g, _features(e["r"], e["nouts"]), dict(t, tx=cur), e))
         if pos == 0:
             small = min(chunk, key=lambda t: len(json.dumps(t["tx"])))
             ctx.sample({"trace": {"coin": small["coin"], "tx": small["tx"],
-                                  "events": [{"r": e["r"], "res": bytes(e["res"]).hex()} for e in small["ev"][:2]]}})
+                                  "events": [{"r": e["r"], "res": bytes(e["res"]).hex()} if e["k"] == "ask" else {"edit": e["what"]}
+                                             for e in small["ev"][:2]]}})
         pos += len(chunk)
     keys = _group_keys("C04|trace", [(g, ft) for g, ft, t, e in rejected], universe)
     for g, ft, t, e in rejected:
@@ -804,7 +862,8 @@ def stage_model(ctx):
     r1 = ctx.tlc("MC_Sighash", "MC_Sighash_bad1", expect_ok=False, count=False, workers=4)
     ctx.selftest("model_rejects_unblanked_hashSequence", (not r1.ok) and r1.violated == "CommitmentLemma")
     # a memo that forgets the removed signatures / the code-separator offset breaks history independence
-    for bad in ("badNoSigs", "badNoBegin"):
+    # ... and one that forgets the fields of the transaction returns a stale digest after an edit
+    for bad in ("badNoSigs", "badNoBegin", "badNoTx"):
         rb = ctx.tlc("MC_SighashHistory", "MC_SighashHistory_" + bad, expect_ok=False, count=False, workers=2)
         ctx.selftest("model_rejects_memo_" + bad[3:], (not rb.ok) and rb.violated == "HistoryIndependent")
     r2 = ctx.tlc("MC_Sighash", "MC_Sighash_bad2", expect_ok=False, count=False, workers=4)
